@@ -45,6 +45,26 @@ type transUnit struct {
 	Mode  string   // "f64": float64 is the exact model F64 ; "mops": float64 is a generic F with [MOps F]
 	Funcs []string // functions ("F") and methods ("T.M") to translate, dependencies first
 	Vars  []string // package-level variables with initialisers to translate (in order, before Funcs that use them)
+	// interfaces and types of other packages (only for units that use them)
+	TypeParams  string               // binders added to every definition, e.g. "{M S : Type} [MapI M] [StoreI S]"
+	StructArgs  string               // arguments of the unit's structures, e.g. "M S"
+	Ifaces      map[string]ifaceSpec // "mapping.IndexMapping" -> class
+	ExternTypes map[string]string    // "stat.SummaryStatistics" -> Lean type
+	ExternFuncs map[string]externFn  // "stat.SummaryStatistics.Add" / "stat.NewSummaryStatistics" -> Lean function
+	Imports     []string
+}
+
+// an interface of another package: a type variable with a class of method signatures (DDS/Model/GoIface.lean);
+// Mutating lists the methods that change their receiver (the translated call returns the new receiver first)
+type ifaceSpec struct {
+	TyVar    string
+	Class    string
+	Mutating map[string]bool
+}
+
+type externFn struct {
+	Lean     string
+	Mutating bool
 }
 
 var transUnits = []transUnit{
@@ -89,6 +109,47 @@ var transUnits = []transUnit{
 		}},
 }
 
+var sketchUnit = transUnit{Dir: "ddsketch", File: "CodeSketch", NS: "DDS.Gen.Sketch", Mode: "f64",
+	TypeParams: "{M S : Type} [MapI M] [StoreI S] [Inhabited M] [Inhabited S]", StructArgs: "M S",
+	Imports: []string{"DDS.Model.GoIface", "DDS.Generated.CodeStat"},
+	Ifaces: map[string]ifaceSpec{
+		"mapping.IndexMapping": {TyVar: "M", Class: "MapI", Mutating: map[string]bool{}},
+		"store.Store": {TyVar: "S", Class: "StoreI", Mutating: map[string]bool{"Add": true, "AddWithCount": true, "Clear": true,
+			"MergeWith": true, "Reweight": true}},
+	},
+	ExternTypes: map[string]string{"stat.SummaryStatistics": "DDS.Gen.Stat.SummaryStatistics"},
+	ExternFuncs: map[string]externFn{
+		"stat.NewSummaryStatistics":          {Lean: "DDS.Gen.Stat.NewSummaryStatistics"},
+		"stat.SummaryStatistics.Count":       {Lean: "DDS.Gen.Stat.SummaryStatistics.Count"},
+		"stat.SummaryStatistics.Sum":         {Lean: "DDS.Gen.Stat.SummaryStatistics.Sum"},
+		"stat.SummaryStatistics.Min":         {Lean: "DDS.Gen.Stat.SummaryStatistics.Min"},
+		"stat.SummaryStatistics.Max":         {Lean: "DDS.Gen.Stat.SummaryStatistics.Max"},
+		"stat.SummaryStatistics.Copy":        {Lean: "DDS.Gen.Stat.SummaryStatistics.Copy"},
+		"stat.SummaryStatistics.Add":         {Lean: "DDS.Gen.Stat.SummaryStatistics.Add", Mutating: true},
+		"stat.SummaryStatistics.MergeWith":   {Lean: "DDS.Gen.Stat.SummaryStatistics.MergeWith", Mutating: true},
+		"stat.SummaryStatistics.Reweight":    {Lean: "DDS.Gen.Stat.SummaryStatistics.Reweight", Mutating: true},
+		"stat.SummaryStatistics.Rescale":     {Lean: "DDS.Gen.Stat.SummaryStatistics.Rescale", Mutating: true},
+		"stat.SummaryStatistics.Clear":       {Lean: "DDS.Gen.Stat.SummaryStatistics.Clear", Mutating: true},
+		"stat.SummaryStatistics.AddToCount":  {Lean: "DDS.Gen.Stat.SummaryStatistics.AddToCount", Mutating: true},
+		"stat.SummaryStatistics.AddToSum":    {Lean: "DDS.Gen.Stat.SummaryStatistics.AddToSum", Mutating: true},
+	},
+	Vars: []string{"ErrUntrackableNaN", "ErrUntrackableTooLow", "ErrUntrackableTooHigh", "ErrNegativeCount", "errEmptySketch"},
+	Funcs: []string{
+		"NewDDSketch", "DDSketch.AddWithCount", "DDSketch.Add", "DDSketch.Copy", "DDSketch.Clear",
+		"DDSketch.GetCount", "DDSketch.GetZeroCount", "DDSketch.IsEmpty", "DDSketch.GetValueAtQuantile",
+		"DDSketch.GetMaxValue", "DDSketch.GetMinValue", "DDSketch.MergeWith", "DDSketch.Reweight",
+		"NewDDSketchWithExactSummaryStatisticsFromData",
+		"DDSketchWithExactSummaryStatistics.IsEmpty", "DDSketchWithExactSummaryStatistics.GetCount",
+		"DDSketchWithExactSummaryStatistics.GetZeroCount", "DDSketchWithExactSummaryStatistics.GetSum",
+		"DDSketchWithExactSummaryStatistics.GetMinValue", "DDSketchWithExactSummaryStatistics.GetMaxValue",
+		"DDSketchWithExactSummaryStatistics.GetValueAtQuantile", "DDSketchWithExactSummaryStatistics.Clear",
+		"DDSketchWithExactSummaryStatistics.Add", "DDSketchWithExactSummaryStatistics.AddWithCount",
+		"DDSketchWithExactSummaryStatistics.MergeWith", "DDSketchWithExactSummaryStatistics.Copy",
+		"DDSketchWithExactSummaryStatistics.Reweight",
+	}}
+
+func init() { transUnits = append(transUnits, sketchUnit) }
+
 type trErr struct{ msg string }
 
 type funcInfo struct {
@@ -100,6 +161,7 @@ type funcInfo struct {
 	res     bool       // returns Res (may panic / has loops)
 	mutated []int      // indexes into allParams() that are written through
 	mutSet  map[*types.Var]bool
+	extern  bool // an interface method or a function of another translated package
 }
 
 func (f *funcInfo) allParams() []*types.Var {
@@ -190,9 +252,21 @@ func (t *tr) leanType(ty types.Type) string {
 		if u.Obj().Name() == "error" {
 			return "GoErr"
 		}
+		if u.Obj().Pkg() != nil && u.Obj().Pkg() != t.pkg {
+			key := u.Obj().Pkg().Name() + "." + u.Obj().Name()
+			if is, ok := t.unit.Ifaces[key]; ok {
+				return is.TyVar
+			}
+			if lt, ok := t.unit.ExternTypes[key]; ok {
+				return lt
+			}
+		}
 		if _, ok := u.Underlying().(*types.Struct); ok && u.Obj().Pkg() == t.pkg {
 			if t.unit.Mode == "mops" {
 				return "(" + t.unit.NS + "." + u.Obj().Name() + " F)"
+			}
+			if t.unit.StructArgs != "" {
+				return "(" + t.unit.NS + "." + u.Obj().Name() + " " + t.unit.StructArgs + ")"
 			}
 			return t.unit.NS + "." + u.Obj().Name()
 		}
@@ -762,6 +836,10 @@ func (t *tr) stdCall(x *ast.CallExpr, path string, c *ectx) (string, bool) {
 		if !mops {
 			return "(GoSem.inf " + arg(0) + ")", true
 		}
+	case "math.NaN":
+		if !mops {
+			return "F64.nan", true
+		}
 	case "math.IsNaN":
 		if !mops {
 			return "(F64.isNaN " + arg(0) + ")", true
@@ -902,7 +980,7 @@ func (t *tr) callee(x *ast.CallExpr, c *ectx) (*funcInfo, []string) {
 	case *ast.SelectorExpr:
 		obj = t.info.Uses[f.Sel]
 		if sel, ok := t.info.Selections[f]; ok && sel.Kind() == types.MethodVal {
-			recvArg = t.expr(f.X, c)
+			recvArg = t.expr(f.X, c) + t.implicitPath(f, sel)
 		}
 	}
 	if obj == nil {
@@ -929,6 +1007,80 @@ func (t *tr) callee(x *ast.CallExpr, c *ectx) (*funcInfo, []string) {
 		args = append(args, t.expr(a, c))
 	}
 	return fi, args
+}
+
+// a method promoted through embedded fields: the Lean projection path to the value it is called on
+func (t *tr) implicitPath(f *ast.SelectorExpr, sel *types.Selection) string {
+	path := ""
+	ty := t.typeOf(f.X)
+	idx := sel.Index()
+	for _, i := range idx[:len(idx)-1] {
+		if p, ok := ty.Underlying().(*types.Pointer); ok {
+			ty = p.Elem()
+		}
+		st, ok := ty.Underlying().(*types.Struct)
+		if !ok {
+			t.fail(f, "promoted method through a non-struct")
+		}
+		path += "." + lname(st.Field(i).Name())
+		ty = st.Field(i).Type()
+	}
+	return path
+}
+
+// interface methods and functions of other translated packages that the unit declares
+func (t *tr) registerExterns() {
+	for _, f := range t.files {
+		ast.Inspect(f, func(n ast.Node) bool {
+			call, ok := n.(*ast.CallExpr)
+			if !ok {
+				return true
+			}
+			var obj types.Object
+			switch fn := call.Fun.(type) {
+			case *ast.Ident:
+				obj = t.info.Uses[fn]
+			case *ast.SelectorExpr:
+				obj = t.info.Uses[fn.Sel]
+			}
+			fo, ok := obj.(*types.Func)
+			if !ok || fo.Pkg() == nil || fo.Pkg() == t.pkg || t.byObj[obj] != nil {
+				return true
+			}
+			sig := fo.Type().(*types.Signature)
+			if sig.Recv() != nil {
+				rt := sig.Recv().Type()
+				if p, ok := rt.(*types.Pointer); ok {
+					rt = p.Elem()
+				}
+				nm, ok := rt.(*types.Named)
+				if !ok {
+					return true
+				}
+				key := nm.Obj().Pkg().Name() + "." + nm.Obj().Name()
+				if is, ok := t.unit.Ifaces[key]; ok {
+					fi := &funcInfo{key: key + "." + fo.Name(), lean: is.Class + "." + fo.Name(), sig: sig, recv: sig.Recv(),
+						mutSet: map[*types.Var]bool{}, extern: true}
+					if is.Mutating[fo.Name()] {
+						fi.mutSet[sig.Recv()] = true
+						fi.mutated = []int{0}
+					}
+					t.byObj[obj] = fi
+				} else if ef, ok := t.unit.ExternFuncs[key+"."+fo.Name()]; ok {
+					fi := &funcInfo{key: key + "." + fo.Name(), lean: ef.Lean, sig: sig, recv: sig.Recv(),
+						mutSet: map[*types.Var]bool{}, extern: true}
+					if ef.Mutating {
+						fi.mutSet[sig.Recv()] = true
+						fi.mutated = []int{0}
+					}
+					t.byObj[obj] = fi
+				}
+			} else if ef, ok := t.unit.ExternFuncs[fo.Pkg().Name()+"."+fo.Name()]; ok {
+				t.byObj[obj] = &funcInfo{key: fo.Pkg().Name() + "." + fo.Name(), lean: ef.Lean, sig: sig, mutSet: map[*types.Var]bool{}, extern: true}
+			}
+			return true
+		})
+	}
 }
 
 func (t *tr) apply(fi *funcInfo, args []string) string {
@@ -971,6 +1123,18 @@ func (t *tr) zero(n ast.Node, ty types.Type) string {
 	}
 	if nm, ok := ty.(*types.Named); ok && nm.Obj().Name() == "error" {
 		return "GoErr.nil"
+	}
+	if p, ok := ty.(*types.Pointer); ok {
+		return t.zero(n, p.Elem()) // a nil pointer result is only returned next to a non-nil error
+	}
+	if nm, ok := ty.(*types.Named); ok && nm.Obj().Pkg() != nil && nm.Obj().Pkg() != t.pkg {
+		key := nm.Obj().Pkg().Name() + "." + nm.Obj().Name()
+		if _, ok := t.unit.Ifaces[key]; ok {
+			return "default"
+		}
+		if _, ok := t.unit.ExternTypes[key]; ok {
+			return "default"
+		}
 	}
 	t.fail(n, "no zero value for %s", ty)
 	return ""
@@ -1065,6 +1229,11 @@ func (t *tr) assignTo(lhs ast.Expr, rhs string, c *ectx, sc *sctx, k string) str
 		if id, ok := l.X.(*ast.Ident); ok {
 			return "let " + lname(id.Name) + " := { " + lname(id.Name) + " with " + lname(l.Sel.Name) + " := " + rhs + " }\n" + k
 		}
+		if baseIdent(l.X) != nil {
+			// s.a.b = v  ==>  s.a = { s.a with b := v }
+			inner := t.expr(l.X, c)
+			return t.assignTo(l.X, "{ "+inner+" with "+lname(l.Sel.Name)+" := "+rhs+" }", c, sc, k)
+		}
 	case *ast.IndexExpr:
 		if id, ok := l.X.(*ast.Ident); ok && sc.monad != "pure" {
 			comb := "GoSem.optR"
@@ -1076,6 +1245,27 @@ func (t *tr) assignTo(lhs ast.Expr, rhs string, c *ectx, sc *sctx, k string) str
 	}
 	t.fail(lhs, "unsupported assignment target")
 	return ""
+}
+
+// the variable at the root of `s`, `*b`, `s.f`, `s.f.g`, `(*b)`
+func baseIdent(e ast.Expr) *ast.Ident {
+	switch l := e.(type) {
+	case *ast.Ident:
+		return l
+	case *ast.StarExpr:
+		return baseIdent(l.X)
+	case *ast.ParenExpr:
+		return baseIdent(l.X)
+	case *ast.SelectorExpr:
+		return baseIdent(l.X)
+	case *ast.IndexExpr:
+		return baseIdent(l.X)
+	case *ast.UnaryExpr:
+		if l.Op == token.AND {
+			return baseIdent(l.X)
+		}
+	}
+	return nil
 }
 
 // names a pointer-ish argument expression refers to (`b`, `&b`, `s`)
@@ -1123,7 +1313,7 @@ func (t *tr) callStmt(x *ast.CallExpr, lhs []ast.Expr, define bool, sc *sctx, k 
 		}
 	}
 	fi, args := t.callee(x, c)
-	if fi == nil || fi.decl == nil {
+	if fi == nil || (fi.decl == nil && !fi.extern) {
 		// a pure expression call (library function, intrinsic) bound to lhs
 		if len(lhs) == 1 {
 			v := t.expr(x, c)
@@ -1138,18 +1328,28 @@ func (t *tr) callStmt(x *ast.CallExpr, lhs []ast.Expr, define bool, sc *sctx, k 
 		argExprs = append(argExprs, x.Fun.(*ast.SelectorExpr).X)
 	}
 	argExprs = append(argExprs, x.Args...)
-	for _, mi := range fi.mutated {
-		n := argVarName(argExprs[mi])
-		if n == "" {
-			t.fail(x, "argument written through a pointer must be a variable")
-		}
-		pats = append(pats, lname(n))
-	}
-	nres := fi.sig.Results().Len()
 	var post []struct {
 		lhs ast.Expr
 		tmp string
 	}
+	for _, mi := range fi.mutated {
+		n := argVarName(argExprs[mi])
+		if n == "" {
+			// a field of a variable (`s.positiveValueStore.Add(…)`): bind the new value, then store it back
+			if baseIdent(argExprs[mi]) == nil {
+				t.fail(x, "argument written through a pointer must be a variable or a field of one")
+			}
+			tn := t.tmp()
+			pats = append(pats, tn)
+			post = append(post, struct {
+				lhs ast.Expr
+				tmp string
+			}{argExprs[mi], tn})
+			continue
+		}
+		pats = append(pats, lname(n))
+	}
+	nres := fi.sig.Results().Len()
 	for i := 0; i < nres; i++ {
 		if i < len(lhs) {
 			if id, ok := lhs[i].(*ast.Ident); ok {
@@ -1253,19 +1453,7 @@ func (t *tr) assignedOuter(nodes []ast.Node, declaredInside func(types.Object) b
 	var out []*types.Var
 	seen := map[*types.Var]bool{}
 	add := func(e ast.Expr) {
-		var id *ast.Ident
-		switch l := e.(type) {
-		case *ast.Ident:
-			id = l
-		case *ast.StarExpr:
-			id, _ = l.X.(*ast.Ident)
-		case *ast.SelectorExpr:
-			id, _ = l.X.(*ast.Ident)
-		case *ast.IndexExpr:
-			id, _ = l.X.(*ast.Ident)
-		case *ast.UnaryExpr:
-			id, _ = l.X.(*ast.Ident)
-		}
+		id := baseIdent(e)
 		if id == nil || id.Name == "_" {
 			return
 		}
@@ -1440,6 +1628,31 @@ func (t *tr) stmt(s ast.Stmt, sc *sctx, kf func() string) string {
 		for _, mi := range t.cur.mutated {
 			vals = append(vals, lname(t.cur.allParams()[mi].Name()))
 		}
+		if len(x.Results) == 1 {
+			// `return f(args)` where f is translated and writes through a pointer, is fallible, or
+			// returns several values: bind its results first
+			if call, ok := x.Results[0].(*ast.CallExpr); ok {
+				if tv, isT := t.info.Types[call.Fun]; !(isT && tv.IsType()) {
+					var obj types.Object
+					switch f := call.Fun.(type) {
+					case *ast.Ident:
+						obj = t.info.Uses[f]
+					case *ast.SelectorExpr:
+						obj = t.info.Uses[f.Sel]
+					}
+					if fi := t.byObj[obj]; fi != nil && (len(fi.mutated) > 0 || fi.sig.Results().Len() > 1) {
+						var lhs []ast.Expr
+						var names []string
+						for i := 0; i < fi.sig.Results().Len(); i++ {
+							n := t.tmp()
+							lhs = append(lhs, ast.NewIdent(n))
+							names = append(names, n)
+						}
+						return t.callStmt(call, lhs, true, sc, t.ret(tuple(append(vals, names...)), sc))
+					}
+				}
+			}
+		}
 		if len(x.Results) == 1 && t.cur.sig.Results().Len() > 1 {
 			t.fail(s, "return of a multi-value call")
 		}
@@ -1472,7 +1685,11 @@ func (t *tr) stmt(s ast.Stmt, sc *sctx, kf func() string) string {
 		t.fail(s, "unsupported branch statement")
 	case *ast.IfStmt:
 		if x.Init != nil {
-			t.fail(s, "if with an init statement")
+			// `if init; cond { … }`: the init statement, then the if (the names it declares stay in scope
+			// afterwards, which is harmless: Go code after the if cannot refer to them)
+			rest := *x
+			rest.Init = nil
+			return t.stmt(x.Init, sc, func() string { return t.stmt(&rest, sc, kf) })
 		}
 		c, hs := t.newE(sc)
 		cond := t.expr(x.Cond, c)
@@ -1646,6 +1863,9 @@ func (t *tr) forStmt(x *ast.ForStmt, sc *sctx, k string) string {
 	if t.unit.Mode == "mops" {
 		sig.WriteString(" {F : Type} [MOps F]")
 	}
+	if t.unit.TypeParams != "" {
+		sig.WriteString(" " + t.unit.TypeParams)
+	}
 	for _, v := range ro {
 		sig.WriteString(" (" + lname(v.Name()) + " : " + t.leanType(v.Type()) + ")")
 	}
@@ -1716,19 +1936,7 @@ func (t *tr) analyseMutation() {
 				}
 			}
 			mark := func(e ast.Expr) {
-				var id *ast.Ident
-				switch l := e.(type) {
-				case *ast.StarExpr:
-					id, _ = l.X.(*ast.Ident)
-				case *ast.SelectorExpr:
-					id, _ = l.X.(*ast.Ident)
-				case *ast.Ident:
-					id = l
-				case *ast.ParenExpr:
-					if st, ok := l.X.(*ast.StarExpr); ok {
-						id, _ = st.X.(*ast.Ident)
-					}
-				}
+				id := baseIdent(e)
 				if id == nil {
 					return
 				}
@@ -1883,14 +2091,16 @@ func (t *tr) emitStructs() {
 		st := scope.Lookup(n).Type().Underlying().(*types.Struct)
 		if t.unit.Mode == "mops" {
 			fmt.Fprintf(&t.out, "structure %s (F : Type) where\n", n)
+		} else if t.unit.StructArgs != "" {
+			fmt.Fprintf(&t.out, "structure %s (%s : Type) where\n", n, t.unit.StructArgs)
 		} else {
 			fmt.Fprintf(&t.out, "structure %s where\n", n)
 		}
 		for i := 0; i < st.NumFields(); i++ {
 			fmt.Fprintf(&t.out, "  %s : %s\n", lname(st.Field(i).Name()), t.leanType(st.Field(i).Type()))
 		}
-		if t.unit.Mode != "mops" {
-			t.out.WriteString("deriving DecidableEq, Repr\n")
+		if t.unit.Mode != "mops" && t.unit.StructArgs == "" {
+			t.out.WriteString("deriving DecidableEq, Repr, Inhabited\n")
 		}
 		t.out.WriteString("\n")
 	}
@@ -1927,6 +2137,9 @@ func (t *tr) emitFunc(fi *funcInfo) {
 	sig.WriteString("def " + fi.lean)
 	if t.unit.Mode == "mops" {
 		sig.WriteString(" {F : Type} [MOps F]")
+	}
+	if t.unit.TypeParams != "" {
+		sig.WriteString(" " + t.unit.TypeParams)
 	}
 	if fi.res {
 		sig.WriteString(" (fuel : Nat)")
@@ -2053,6 +2266,7 @@ func translateUnit(repo string, u transUnit) (text string, errMsg string) {
 		}
 		t.vars[p.obj] = lname(name)
 	}
+	t.registerExterns()
 	t.analyseMutation()
 	// fallibility: a variable initialised by a call to a fallible function is fallible; iterate
 	for i := 0; i < 4; i++ {
@@ -2072,10 +2286,14 @@ func translateUnit(repo string, u transUnit) (text string, errMsg string) {
 	t.out.WriteString("   Regenerated on every run of a check; DDS/Proofs/Gen*.lean proves these definitions equal to the\n")
 	t.out.WriteString("   hand-written model, so the model's theorems are re-checked against what the source says now. -/\n")
 	if u.Mode == "mops" {
-		t.out.WriteString("import DDS.Model.GoSem\nimport DDS.Model.Mapping\n\n")
+		t.out.WriteString("import DDS.Model.GoSem\nimport DDS.Model.Mapping\n")
 	} else {
-		t.out.WriteString("import DDS.Model.GoSem\n\n")
+		t.out.WriteString("import DDS.Model.GoSem\n")
 	}
+	for _, im := range u.Imports {
+		t.out.WriteString("import " + im + "\n")
+	}
+	t.out.WriteString("\n")
 	t.out.WriteString("set_option linter.unusedVariables false\n\n")
 	fmt.Fprintf(&t.out, "namespace %s\nopen DDS DDS.GoSem\n\n", u.NS)
 	t.emitStructs()
@@ -2113,7 +2331,9 @@ func translateUnit(repo string, u transUnit) (text string, errMsg string) {
 			emitVar(v)
 		}
 		for _, f := range fns {
-			emitFn(f)
+			if t.funcs[f] != nil {
+				emitFn(f)
+			}
 		}
 		t.cur = &funcInfo{key: name, lean: name}
 		c := &ectx{}
@@ -2144,7 +2364,7 @@ func translateUnit(repo string, u transUnit) (text string, errMsg string) {
 			emitVar(v)
 		}
 		for _, f := range fns {
-			if f != key {
+			if f != key && t.funcs[f] != nil {
 				emitFn(f)
 			}
 		}
